@@ -554,7 +554,7 @@ impl Driver for C18 {
         ))
     }
     fn rule(&self) -> String {
-        "inputs up to 4 KiB: valid programs (G-text, G-data, expression corpus), token-level mutations of them (delete / duplicate / swap a token, numeric extremes around the i32/i64/u64/u128/f64 limits, negation wraps, deep indexes, larger numbers, injected brackets / quotes / non-ASCII symbols, applied once or twice), byte noise and grammar-token noise, nesting up to 64 (parentheses, blocks, arrays, operator chains; two-element scoped blocks up to 6 levels, single-element ones up to 48, scoped blocks inside the iterator position up to 40; products of up to 60 constant sums and of up to 40 sums with variables), and - in one unit out of 1000 - inputs from the known-bad region (aggregations and for-quantified constraints over 20,000 to 9,000,000 elements). Every input goes, in a sacrificial worker with a 10 s CPU budget and a 2 GiB address-space limit, through parse, format (+ re-parse), type_check, transform, model rendering, linearize, linear rendering, LP export, into_standard_form, into_tableau, tableau solve, auto_solver and the rendering of every error (to_string_from_source, trace_from_source, traced_error, Display), each stage under catch_unwind with a panic hook that records message and location. non-trivial = distinct input that passed all reachable stages".into()
+        "inputs up to 4 KiB: valid programs (G-text, G-data, expression corpus), token-level mutations of them (delete / duplicate / swap a token, numeric extremes around the i32/i64/u64/u128/f64 limits, negation wraps, deep indexes, larger numbers, injected brackets / quotes / non-ASCII symbols, applied once or twice), byte noise and grammar-token noise, nesting up to 64 (parentheses, blocks, arrays, operator chains; two-element scoped blocks up to 6 levels, single-element ones up to 48, scoped blocks inside the iterator position up to 40; products of up to 60 constant sums and of up to 40 sums with variables), and - in one unit out of 1000 - inputs from the known-bad region (aggregations and for-quantified constraints over 20,000 to 9,000,000 elements). Every input goes, in a sacrificial worker with a 10 s CPU budget and a 2 GiB address-space limit, through parse, format (+ re-parse), type_check, transform, model rendering, linearize, linear rendering, LP export, into_standard_form, into_tableau, tableau solve, auto_solver and the rendering of every error (to_string_from_source, trace_from_source, traced_error, Display), each stage under catch_unwind with a panic hook that records message and location. non-trivial = distinct input that passed all reachable stages Further classes: ragged arrays (elements of different kinds and depths), min/max blocks nested up to 64 deep, blocks and scoped blocks inside range ends and indexes.".into()
     }
     fn thresholds(&self, tier: Tier) -> Thresholds {
         let s = tier.pick(10, 120);
